@@ -69,6 +69,49 @@ type Put struct {
 	Pkey   bool   `json:"pkey"`
 	Deltas []int  `json:"deltas"`
 	Idx    []IdxE `json:"idx"`
+	// Bd (OxiaDb.tla: BigOf / Delta20): deltas that do not fit a TLC integer, as decimal digits; parallel to
+	// Deltas, a non-empty element takes precedence over Deltas[i].  Absent for puts with small deltas.
+	Bd []Key `json:"bd,omitempty"`
+}
+
+// Delta is the i-th sequence delta of the put as the uint64 the request carries.
+func (p *Put) Delta(i int) uint64 {
+	if i < len(p.Bd) && len(p.Bd[i]) > 0 {
+		d, err := strconv.ParseUint(p.Bd[i].S(), 10, 64)
+		if err != nil {
+			panic(fmt.Sprintf("harness: put %s: bd[%d] = %q is not a uint64", p.Key.Q(), i, p.Bd[i].S()))
+		}
+		return d
+	}
+	return uint64(p.Deltas[i])
+}
+
+// SetDeltas fills Deltas / Bd from uint64 deltas (values of 10^9 and above go to Bd).
+func (p *Put) SetDeltas(ds []uint64) {
+	p.Deltas, p.Bd = []int{}, nil
+	big := false
+	for _, d := range ds {
+		big = big || d >= 1000000000
+	}
+	for _, d := range ds {
+		switch {
+		case d >= 1000000000:
+			p.Deltas, p.Bd = append(p.Deltas, 0), append(p.Bd, K(strconv.FormatUint(d, 10)))
+		case big:
+			p.Deltas, p.Bd = append(p.Deltas, int(d)), append(p.Bd, Key{})
+		default:
+			p.Deltas = append(p.Deltas, int(d))
+		}
+	}
+}
+
+// DeltasString shows the deltas of the put.
+func (p *Put) DeltasString() string {
+	ds := make([]string, len(p.Deltas))
+	for i := range p.Deltas {
+		ds[i] = strconv.FormatUint(p.Delta(i), 10)
+	}
+	return "[" + strings.Join(ds, " ") + "]"
 }
 
 type Del struct {
@@ -146,6 +189,7 @@ type Step struct {
 	Req    Req         `json:"req"`
 	Err    string      `json:"err"` // "" | REJECTED | infrastructure error text
 	Kf     bool        `json:"kf"`
+	Ovf    bool        `json:"ovf"` // OxiaDb.tla: SeqOverflow - the demanded results are the code's wrapping arithmetic
 	Res    Res         `json:"res"`
 	Nf     []Notif     `json:"nf"`
 	Recs   []Rec       `json:"recs"`
@@ -279,8 +323,8 @@ func (r *Req) Proto() *proto.WriteRequest {
 		if p.Pkey {
 			q.PartitionKey = pb.String("pk")
 		}
-		for _, d := range p.Deltas {
-			q.SequenceKeyDelta = append(q.SequenceKeyDelta, uint64(d))
+		for j := range p.Deltas {
+			q.SequenceKeyDelta = append(q.SequenceKeyDelta, p.Delta(j))
 		}
 		for _, ix := range p.Idx {
 			q.SecondaryIndexes = append(q.SecondaryIndexes, &proto.SecondaryIndex{IndexName: ix.N.S(), SecondaryKey: ix.K.S()})
@@ -375,7 +419,7 @@ func (r *Req) String() string {
 			fmt.Fprintf(&sb, ",sess=%d", p.Sess)
 		}
 		if len(p.Deltas) > 0 {
-			fmt.Fprintf(&sb, ",deltas=%v,pkey=%v", p.Deltas, p.Pkey)
+			fmt.Fprintf(&sb, ",deltas=%s,pkey=%v", p.DeltasString(), p.Pkey)
 		}
 		for _, ix := range p.Idx {
 			fmt.Fprintf(&sb, ",%s:%s", ix.N.S(), ix.K.S())
